@@ -1,4 +1,6 @@
 import GeoVerif.Model.Mask
+import GeoVerif.Proofs.LineState
+import GeoVerif.Model.Overloads
 /-!
 # C12 — output masks and line capabilities
 
@@ -474,5 +476,279 @@ theorem inverseLine_third_point (e : Enum) (he : e = geod ∨ e = geodx) (exact 
 theorem directLine_third_point (e : Enum) (exact bigf : Bool) (caps : Nat) (x : T) :
     (directLine e exact bigf caps false x).s13 = some x ∧ (directLine e exact bigf caps true x).a13 = some x :=
   ⟨rfl, rfl⟩
+
+
+/-! ### the third point of a line object: a state machine over arbitrary histories (`Model/LineState.lean`)
+
+The machine is the one the driver executes against the implementation (`linehist`): constructors, `SetDistance`, `SetArc`,
+`GenSetDistance`, `Distance()`, `Arc()`, `GenDistance`, around the abstract kernels `arcOf` / `distOf`.  All theorems hold
+for *every* kernel and every value type. -/
+
+section ThirdPoint
+open GeoVerif.LineState
+variable {α : Type}
+
+/-- **history independence**: after any history of setter calls, reader calls and copies, the line object is in the state
+    that a fresh line (same capabilities, third point never set) reaches from the *last* setter call alone; if no setter
+    was called the state is unchanged -/
+theorem history_independent (e : Enum) (K : Kern α) (st : St α) (h : List (Ev α)) :
+    (run e K st h).1 = fromLastSet e K st h ∧
+    (∀ o, lastSet h = some o → fromLastSet e K st h = step e K (fresh K st.caps) o) ∧
+    (lastSet h = none → fromLastSet e K st h = st) := by
+  refine ⟨run_state e K st h, ?_, ?_⟩
+  · intro o ho; unfold fromLastSet; rw [ho]; rfl
+  · intro ho; unfold fromLastSet; rw [ho]
+
+/-- every value a reader returns in the course of a history is the value it returns on the line that has seen only the
+    last setter call before it -/
+theorem reader_history_independent (e : Enum) (K : Kern α) (st : St α) (h1 h2 : List (Ev α)) (r : Rd) :
+    (run e K st (h1 ++ .get r :: h2)).2 =
+      (run e K st h1).2 ++ LineState.read K (fromLastSet e K st h1) r :: (run e K (fromLastSet e K st h1) h2).2 := by
+  rw [run_append]; simp only [run]; rw [run_state]
+
+/-- the capabilities of a line never change -/
+theorem caps_invariant (e : Enum) (K : Kern α) (st : St α) (h : List (Ev α)) : (run e K st h).1.caps = st.caps :=
+  run_caps e K st h
+
+theorem lineCaps_testBit (e : Enum) (he : e = geod ∨ e = geodx) (caps k : Nat) (hk : k = 10 ∨ k = 11) :
+    (lineCaps e caps).testBit k = caps.testBit k := by
+  unfold lineCaps
+  simp only [Nat.testBit_or]
+  have a : e.latitude.testBit k = false := by rcases he with rfl | rfl <;> rcases hk with rfl | rfl <;> decide
+  have b : e.azimuth.testBit k = false := by rcases he with rfl | rfl <;> rcases hk with rfl | rfl <;> decide
+  have c : e.longUnroll.testBit k = false := by rcases he with rfl | rfl <;> rcases hk with rfl | rfl <;> decide
+  simp [a, b, c]
+
+/-- the two guards in terms of the capability bits the user passed to the constructor: a line can turn a distance into
+    an arc iff it was given the `DISTANCE_IN` bit (bit 11), and `SetArc` obtains a distance iff it was given the
+    `DISTANCE` bit (bit 10); by arc every initialised line can locate the point -/
+theorem guards_spec (e : Enum) (he : e = geod ∨ e = geodx) (caps : Nat) :
+    canLocate e (lineCaps e caps) false = caps.testBit distanceInBit ∧
+    canLocate e (lineCaps e caps) true = true ∧
+    assignsS12 e (lineCaps e caps) = caps.testBit Out.s12.bit := by
+  have hne : (lineCaps e caps != 0) = true := by simpa using lineCaps_ne_zero e he caps
+  have h1 : e.outMask &&& e.distanceIn = 1 <<< distanceInBit := by rcases he with rfl | rfl <;> decide
+  have hloc : canLocate e (lineCaps e caps) true = true := by unfold canLocate; simp [hne]
+  refine ⟨?_, hloc, ?_⟩
+  · unfold canLocate
+    rw [h1, and_pow_ne_zero, hne, lineCaps_testBit e he caps distanceInBit (Or.inr rfl)]; simp
+  · unfold assignsS12
+    rw [hloc]
+    have h2 : e.distance &&& (lineCaps e caps &&& e.outMask) &&& e.distance = lineCaps e caps &&& (1 <<< Out.s12.bit) := by
+      have hd : e.distance &&& e.outMask = 1 <<< Out.s12.bit := by rcases he with rfl | rfl <;> decide
+      rw [← hd]
+      apply Nat.eq_of_testBit_eq; intro i
+      simp only [Nat.testBit_and]
+      cases e.distance.testBit i <;> cases (lineCaps e caps).testBit i <;> cases e.outMask.testBit i <;> rfl
+    rw [h2, and_pow_ne_zero, lineCaps_testBit e he caps Out.s12.bit (Or.inl rfl)]; simp
+
+/-- **`SetDistance`**: `Distance()` becomes the value given, whatever the capabilities; `Arc()` becomes the arc of that
+    distance if the line has `DISTANCE_IN` and NaN otherwise (`GenPosition` returns NaN before doing anything) -/
+theorem setDistance_spec (e : Enum) (he : e = geod ∨ e = geodx) (K : Kern α) (caps : Nat) (a0 s0 s : α) :
+    (LineState.setDistance e K ⟨lineCaps e caps, a0, s0⟩ s).s13 = s ∧
+    (LineState.setDistance e K ⟨lineCaps e caps, a0, s0⟩ s).a13 = (if caps.testBit distanceInBit then K.arcOf s else K.nan) := by
+  refine ⟨rfl, ?_⟩
+  simp only [LineState.setDistance, LineState.genPositionRet, (guards_spec e he caps).1]
+
+/-- **`SetArc`**: `Arc()` becomes the value given; `Distance()` becomes the distance of that arc if the line has the
+    `DISTANCE` capability and **NaN otherwise — never the distance of an earlier third point** -/
+theorem setArc_spec (e : Enum) (he : e = geod ∨ e = geodx) (K : Kern α) (caps : Nat) (a0 s0 a : α) :
+    (LineState.setArc e K ⟨lineCaps e caps, a0, s0⟩ a).a13 = a ∧
+    (LineState.setArc e K ⟨lineCaps e caps, a0, s0⟩ a).s13 = (if caps.testBit Out.s12.bit then K.distOf a else K.nan) := by
+  refine ⟨rfl, ?_⟩
+  simp only [LineState.setArc, genPositionS12, (guards_spec e he caps).2.2]
+
+/-- a default-constructed line: whatever is done to it, every reader returns NaN -/
+theorem default_line_reads_nan (e : Enum) (K : Kern α) (h : List (Ev α)) (r : Rd) :
+    LineState.read K (run e K (defaultLine K) h).1 r = K.nan := by
+  have hc : (run e K (defaultLine K) h).1.caps = 0 := by rw [run_caps]; rfl
+  cases r <;> simp [LineState.read, genDistance, St.init, hc]
+
+/-- a line made by a constructor is initialised: its readers return the stored third point -/
+theorem initialised_reads (e : Enum) (he : e = geod ∨ e = geodx) (K : Kern α) (caps : Nat) (a0 s0 : α) (h : List (Ev α)) :
+    let st := (run e K ⟨lineCaps e caps, a0, s0⟩ h).1
+    LineState.read K st .distance = st.s13 ∧ LineState.read K st .arc = st.a13 ∧
+    (∀ am, LineState.read K st (.genDistance am) = if am then st.a13 else st.s13) := by
+  intro st
+  have hc : st.caps = lineCaps e caps := run_caps e K _ h
+  have hi : st.init = true := by simp [St.init, hc, lineCaps_ne_zero e he caps]
+  refine ⟨?_, ?_, ?_⟩ <;> simp [LineState.read, genDistance, hi]
+
+/-- **`Distance()` / `Arc()` consistency.**  Let `posD` / `posA` be the point `GenPosition` reaches for a distance / for
+    an arc, and assume the kernel contract of the property ("a position specified by arc length and by the corresponding
+    distance is the same point"): `posA (arcOf s) = posD s` and `posD (distOf a) = posA a`.  Then after *any* history on a
+    line made by `Line(…, caps)`, whenever both `Arc()` and `Distance()` are numbers they address the same point. -/
+theorem third_point_consistent {β : Type} (e : Enum) (he : e = geod ∨ e = geodx) (K : Kern α) (posD posA : α → β)
+    (hDA : ∀ s, posA (K.arcOf s) = posD s) (hAD : ∀ a, posD (K.distOf a) = posA a)
+    (caps : Nat) (h : List (Ev α)) :
+    let st := (run e K (lineInit e K caps) h).1
+    st.a13 ≠ K.nan → st.s13 ≠ K.nan → posA st.a13 = posD st.s13 := by
+  intro st ha hs
+  have hst : st = fromLastSet e K (lineInit e K caps) h := run_state e K _ h
+  unfold fromLastSet at hst
+  have h2 : (⟨(lineInit e K caps).caps, K.nan, K.nan⟩ : St α) = ⟨lineCaps e caps, K.nan, K.nan⟩ := rfl
+  rw [h2] at hst
+  cases hl : lastSet h with
+  | none => rw [hl] at hst; rw [hst] at ha; exact absurd rfl ha
+  | some o =>
+    rw [hl] at hst
+    have hD : ∀ s, st = LineState.setDistance e K ⟨lineCaps e caps, K.nan, K.nan⟩ s → posA st.a13 = posD st.s13 := by
+      intro s h1
+      have := setDistance_spec e he K caps K.nan K.nan s
+      rw [h1] at ha ⊢
+      rw [this.2] at ha; rw [this.1, this.2]
+      by_cases hb : caps.testBit distanceInBit = true
+      · rw [if_pos hb]; exact hDA s
+      · rw [if_neg hb] at ha; exact absurd rfl ha
+    have hA : ∀ a, st = LineState.setArc e K ⟨lineCaps e caps, K.nan, K.nan⟩ a → posA st.a13 = posD st.s13 := by
+      intro a h1
+      have := setArc_spec e he K caps K.nan K.nan a
+      rw [h1] at hs ⊢
+      rw [this.2] at hs; rw [this.1, this.2]
+      by_cases hb : caps.testBit Out.s12.bit = true
+      · rw [if_pos hb]; exact (hAD a).symm
+      · rw [if_neg hb] at hs; exact absurd rfl hs
+    cases o with
+    | setDistance s => exact hD s hst
+    | setArc a => exact hA a hst
+    | genSetDistance am x => cases am with
+      | false => exact hD x hst
+      | true => exact hA x hst
+
+/-- non-vacuity of `third_point_consistent`: integers with `none` as NaN, `arcOf s = s + 1`, `distOf a = a − 1`,
+    `posD s = s`, `posA a = a − 1`; after `SetDistance 5; Arc(); SetArc 9` on a line with every capability both
+    components are numbers -/
+example :
+    let K : Kern (Option Int) := ⟨none, fun s => s.map (· + 1), fun a => a.map (· - 1)⟩
+    (∀ s, (fun a : Option Int => a.map (· - 1)) (K.arcOf s) = (fun s => s) s) ∧
+    (run geod K (lineInit geod K geod_ALL) [.set (.setDistance (some 5)), .get .arc, .set (.setArc (some 9))]) =
+      (⟨lineCaps geod geod_ALL, some 9, some 8⟩, [some 6]) := by
+  constructor
+  · intro s; cases s <;> simp
+  · decide
+
+/-! #### constructors -/
+
+/-- **`DirectLine(s12)`** (any requested capabilities; `DISTANCE_IN` is added): `Distance()` is `s12` — so
+    `Position(Distance())` is the very call `Position(s12)` that defines point 2 — and `Arc()` is the arc of `s12` -/
+theorem directLine_spec (e : Enum) (he : e = geod ∨ e = geodx) (K : Kern α) (caps : Nat) (s : α) :
+    (LineState.directLine e K caps s).s13 = s ∧ (LineState.directLine e K caps s).a13 = K.arcOf s ∧
+    (LineState.directLine e K caps s).caps = lineCaps e (caps ||| e.distanceIn) := by
+  have hb : (caps ||| e.distanceIn).testBit distanceInBit = true := by
+    have : e.distanceIn.testBit distanceInBit = true := by rcases he with rfl | rfl <;> decide
+    simp [Nat.testBit_or, this]
+  have := setDistance_spec e he K (caps ||| e.distanceIn) K.nan K.nan s
+  refine ⟨rfl, ?_, rfl⟩
+  show (LineState.setDistance e K ⟨lineCaps e (caps ||| e.distanceIn), K.nan, K.nan⟩ s).a13 = _
+  rw [this.2, hb]; rfl
+
+/-- **`ArcDirectLine(a12)`**: `Arc()` is `a12` (so `ArcPosition(Arc())` is the defining call), `Distance()` is the
+    distance of that arc when `DISTANCE` was requested and NaN otherwise; no capability is added -/
+theorem arcDirectLine_spec (e : Enum) (he : e = geod ∨ e = geodx) (K : Kern α) (caps : Nat) (a : α) :
+    (arcDirectLine e K caps a).a13 = a ∧
+    (arcDirectLine e K caps a).s13 = (if caps.testBit Out.s12.bit then K.distOf a else K.nan) ∧
+    (arcDirectLine e K caps a).caps = lineCaps e caps := by
+  have := setArc_spec e he K caps K.nan K.nan a
+  exact ⟨rfl, this.2, rfl⟩
+
+/-- **`InverseLine`**: `Arc()` is the `a12` of the inverse problem; if `DISTANCE_IN` was requested, `DISTANCE` is added
+    and `Distance()` is the distance of `a12`; if neither was requested `Distance()` is NaN -/
+theorem inverseLine_spec (e : Enum) (he : e = geod ∨ e = geodx) (K : Kern α) (caps : Nat) (a12 : α) :
+    (LineState.inverseLine e K caps a12).a13 = a12 ∧
+    (caps.testBit distanceInBit = true → (LineState.inverseLine e K caps a12).s13 = K.distOf a12 ∧
+        (LineState.inverseLine e K caps a12).caps = lineCaps e (caps ||| e.distance)) ∧
+    (caps.testBit distanceInBit = false → (LineState.inverseLine e K caps a12).s13 = (if caps.testBit Out.s12.bit then K.distOf a12 else K.nan) ∧
+        (LineState.inverseLine e K caps a12).caps = lineCaps e caps) := by
+  have h1 : e.outMask &&& e.distanceIn = 1 <<< distanceInBit := by rcases he with rfl | rfl <;> decide
+  refine ⟨by unfold LineState.inverseLine; rfl, ?_, ?_⟩
+  · intro h
+    have hc : (caps &&& (e.outMask &&& e.distanceIn) != 0) = true := by rw [h1, and_pow_ne_zero]; exact h
+    have hb : (caps ||| e.distance).testBit Out.s12.bit = true := by
+      have : e.distance.testBit Out.s12.bit = true := by rcases he with rfl | rfl <;> decide
+      simp [Nat.testBit_or, this]
+    have := setArc_spec e he K (caps ||| e.distance) K.nan K.nan a12
+    unfold LineState.inverseLine; simp only [hc, if_true]
+    refine ⟨?_, rfl⟩
+    show (LineState.setArc e K ⟨lineCaps e (caps ||| e.distance), K.nan, K.nan⟩ a12).s13 = _
+    rw [this.2, hb]; rfl
+  · intro h
+    have hc : (caps &&& (e.outMask &&& e.distanceIn) != 0) = false := by rw [h1, and_pow_ne_zero]; exact h
+    have := setArc_spec e he K caps K.nan K.nan a12
+    unfold LineState.inverseLine; simp only [hc]
+    exact ⟨this.2, rfl⟩
+
+/-- with the kernel contract, the stored third point of every line constructor reproduces the end point that defined the
+    line, by whichever of `Distance()` / `Arc()` is a number -/
+theorem constructors_reproduce_endpoint {β : Type} (e : Enum) (he : e = geod ∨ e = geodx) (K : Kern α) (posD posA : α → β)
+    (hDA : ∀ s, posA (K.arcOf s) = posD s) (hAD : ∀ a, posD (K.distOf a) = posA a) (caps : Nat) (x : α) :
+    posD (LineState.directLine e K caps x).s13 = posD x ∧ posA (LineState.directLine e K caps x).a13 = posD x ∧
+    posA (arcDirectLine e K caps x).a13 = posA x ∧
+    (caps.testBit Out.s12.bit = true → posD (arcDirectLine e K caps x).s13 = posA x) ∧
+    posA (LineState.inverseLine e K caps x).a13 = posA x ∧
+    (caps.testBit distanceInBit = true → posD (LineState.inverseLine e K caps x).s13 = posA x) := by
+  have d := directLine_spec e he K caps x
+  have a := arcDirectLine_spec e he K caps x
+  have i := inverseLine_spec e he K caps x
+  refine ⟨by rw [d.1], by rw [d.2.1]; exact hDA x, by rw [a.1], ?_, by rw [i.1], ?_⟩
+  · intro h; rw [a.2.1, h]; exact hAD x
+  · intro h; rw [(i.2.1 h).1]; exact hAD x
+
+/-- `Capabilities(testcaps)` is true iff every *output* bit (7–14) of `testcaps` is among the line's capabilities;
+    `LONG_UNROLL` and the `CAP_x` bits of `testcaps` are ignored -/
+theorem capabilities_spec (e : Enum) (he : e = geod ∨ e = geodx) (st : St α) (testcaps : Nat) :
+    capabilitiesTest e st testcaps = true ↔ ∀ k, 7 ≤ k → k ≤ 14 → testcaps.testBit k = true → st.caps.testBit k = true := by
+  have hall : e.outAll = 0x7F80 := by rcases he with rfl | rfl <;> decide
+  unfold capabilitiesTest
+  rw [beq_iff_eq, hall]
+  constructor
+  · intro h k h7 h14 ht
+    have := congrArg (fun n => n.testBit k) h
+    simp only [Nat.testBit_and] at this
+    have hk : (32640 : Nat).testBit k = true := by
+      have : k = 7 ∨ k = 8 ∨ k = 9 ∨ k = 10 ∨ k = 11 ∨ k = 12 ∨ k = 13 ∨ k = 14 := by omega
+      rcases this with rfl | rfl | rfl | rfl | rfl | rfl | rfl | rfl <;> decide
+    simp only [ht, hk, Bool.and_true, Bool.true_and] at this
+    simpa using this
+  · intro h
+    apply Nat.eq_of_testBit_eq; intro k
+    simp only [Nat.testBit_and]
+    by_cases hk : (32640 : Nat).testBit k = true
+    · have hr : 7 ≤ k ∧ k ≤ 14 := by
+        rcases Nat.lt_or_ge k 7 with h1 | h1
+        · have : k = 0 ∨ k = 1 ∨ k = 2 ∨ k = 3 ∨ k = 4 ∨ k = 5 ∨ k = 6 := by omega
+          rcases this with rfl | rfl | rfl | rfl | rfl | rfl | rfl <;> exact absurd hk (by decide)
+        · rcases Nat.lt_or_ge 14 k with h3 | h3
+          · have h2 : (32640 : Nat) < 2 ^ k :=
+              Nat.lt_of_lt_of_le (by decide : (32640 : Nat) < 2 ^ 15) (Nat.pow_le_pow_right (by decide) (by omega))
+            rw [Nat.testBit_lt_two_pow h2] at hk; exact absurd hk (by simp)
+          · exact ⟨h1, h3⟩
+      by_cases ht : testcaps.testBit k = true
+      · simp [ht, hk, h k hr.1 hr.2 ht]
+      · simp [ht]
+    · simp [hk]
+
+/-- `Capabilities()` of a constructed line: the capabilities requested plus `LATITUDE | AZIMUTH | LONG_UNROLL` -/
+theorem capabilities_of_line (e : Enum) (K : Kern α) (caps : Nat) (h : List (Ev α)) :
+    (run e K (lineInit e K caps) h).1.caps = caps ||| e.latitude ||| e.azimuth ||| e.longUnroll :=
+  run_caps e K _ h
+
+end ThirdPoint
+
+/-! ### the overload → mask table (extracted from the five headers on every run, `Gen/Overloads.lean`) -/
+
+/-- **every inline overload** of `Direct`, `ArcDirect`, `Inverse`, `Position`, `ArcPosition` of `Geodesic`, `GeodesicExact`,
+    `GeodesicLine`, `GeodesicLineExact`, `Rhumb`, `RhumbLine` (and the two pass-through wrappers of `Rhumb`) satisfies
+    `Overloads.rowOK`: the mask it passes to the general function is exactly the union of the flags of its reference
+    parameters (so: an output is requested iff the overload has a parameter for it; no `LONG_UNROLL`, no `DISTANCE_IN`);
+    every reference parameter is passed in the position of the quantity of the same name and every other position gets a
+    scratch local; the inputs are passed unchanged and in order with `arcmode = false` for `Direct` / `Position` and `true` for
+    `ArcDirect` / `ArcPosition`; the value of the general function is returned iff the overload returns `Math::real` -/
+theorem overload_table_ok : Gen.Overloads.table.all Overloads.rowOK = true := by decide
+
+/-- the `mask` enums of the three line classes repeat those of their solvers -/
+theorem line_enums_agree : Overloads.lineEnumsAgree = true := by decide
+
+/-- non-vacuity: the table is not empty, e.g. it has the 20 + 20 + 13 + 13 + 6 + 2 members the headers declare today -/
+example : Gen.Overloads.table.length = 74 ∧ Gen.Overloads.decls.length = 9 := by decide
 
 end GeoVerif.Props.C12
